@@ -1,7 +1,7 @@
 (** Correspondence cases for C15: tms20.TileMatrixSet.FromNative / ToNative / MatrixBoundingBox
     against the model over exact rationals.  Points are the exact values of the float64 pairs
     handed to the implementation (chosen with a margin of at least 1e-6 tile sizes from every tile
-    border); tiles are compared exactly, coordinates with tolerance 1e-9 * max(1, |value|)
+    border); tiles are compared exactly, coordinates with tolerance 1e-9 * scale, scale = max(1, |origin x|, |origin y|, matrix width, matrix height)
     (the implementation computes in float64 and rounds to 9 decimals: the stated envelope). *)
 From Coq Require Import ZArith NArith QArith List String Bool.
 From Texel Require Import Prelude.Corr Tms.Model.
@@ -40,10 +40,18 @@ Definition with_corner (t : tms) (z c : Z) : tms :=
   if c =? 0 then t else apply_pert t (PCorner z c).
 
 Definition Qabs' (q : Q) : Q := if Qltb q 0 then (- q)%Q else q.
-Definition close (a b : Q) : bool :=
-  let m := if Qltb 1 (Qabs' a) then Qabs' a else 1%Q in
-  Qle_bool (Qabs' (a - b)) (m * (1 # 1000000000))%Q.
-Definition close2 (a b : Q * Q) : bool := close (fst a) (fst b) && close (snd a) (snd b).
+Definition Qmax' (a b : Q) : Q := if Qltb a b then b else a.
+(** scale of a matrix: max(1, |origin x|, |origin y|, width, height) *)
+Definition scale_of (t : tms) (z : Z) : Q :=
+  match find_tm z (t_matrices t) with
+  | Some m =>
+      let o := match tm_origin m with Some p => qpoint p | None => (0, 0)%Q end in
+      let sz := matrixSizeTM m in
+      Qmax' 1 (Qmax' (Qabs' (fst o)) (Qmax' (Qabs' (snd o)) (Qmax' (fst sz) (snd sz))))
+  | None => 1
+  end.
+Definition close (sc a b : Q) : bool := Qle_bool (Qabs' (a - b)) (sc * (1 # 1000000000))%Q.
+Definition close2 (sc : Q) (a b : Q * Q) : bool := close sc (fst a) (fst b) && close sc (snd a) (snd b).
 
 Definition opt_tile_eqb (a b : option (Z * Z)) : bool :=
   match a, b with
@@ -65,7 +73,7 @@ Definition check (c : case) : bool :=
   | CornerCase s z co tx ty obs =>
       match the_set s with
       | Ok t => match toNative (with_corner t z co) z (tx, ty), obs with
-                | Ok (Some p), Some o => close2 p o
+                | Ok (Some p), Some o => close2 (scale_of t z) p o
                 | Ok None, None => true
                 | _, _ => false
                 end
@@ -74,7 +82,7 @@ Definition check (c : case) : bool :=
   | BBoxCase s z co obs =>
       match the_set s with
       | Ok t => match matrixBoundingBox (with_corner t z co) z, obs with
-                | Ok (bl, tr), Some (obl, otr) => close2 bl obl && close2 tr otr
+                | Ok (bl, tr), Some (obl, otr) => close2 (scale_of t z) bl obl && close2 (scale_of t z) tr otr
                 | Error, None => true
                 | _, _ => false
                 end
